@@ -53,9 +53,13 @@ def decorate(text, rnd):
             out.append(l + '  # trailing comment %d' % rnd.randint(0, 99))
         else:
             out.append(l)
-        if l and not l.startswith(' ') and rnd.random() < 0.1:
+        if l and not l.startswith(' ') and rnd.random() < 0.2:
             out.append('')
             out.append('# a comment line before the next statement')
+        elif l.startswith('    ') and not l.lstrip().startswith(('else', 'elif', 'except', 'finally', '@')) \
+                and l.rstrip().endswith((')', ']')) is False and rnd.random() < 0.08:
+            ind = l[:len(l) - len(l.lstrip())]
+            out.append(ind + '# an indented comment line')
     return '\n'.join(out)
 
 
@@ -182,6 +186,30 @@ def comments_of(text):
                       if t.type == tokenize.COMMENT)
     except Exception:
         return None
+
+
+def unchanged_lines_with_changed_endings(old, new):
+    """Lines that were rewritten *only in their line ending*: in a replace block of the line diff
+    between old and new text, an old non-blank line whose content re-appears in the same block
+    with another ending (and not with its own).  Inserted copies elsewhere do not count."""
+    import difflib
+    ol = parso.split_lines(old, keepends=True)
+    nl = parso.split_lines(new, keepends=True)
+
+    def split(l):
+        body = l.rstrip('\r\n')
+        return body, l[len(body):]
+    out = []
+    sm = difflib.SequenceMatcher(None, ol, nl, autojunk=False)
+    for tag, i1, i2, j1, j2 in sm.get_opcodes():
+        if tag != 'replace':
+            continue
+        news = [split(x) for x in nl[j1:j2]]
+        for x in ol[i1:i2]:
+            b, e = split(x)
+            if b.strip() and e and (b, e) not in news and any(nb == b and ne for nb, ne in news):
+                out.append((b[-30:], e, [ne for nb, ne in news if nb == b]))
+    return out
 
 
 def line_endings(text):
@@ -373,6 +401,10 @@ def run(spec):
                 rec.ev('c07:inserted_lines_use_other_line_ending_recorded')
             if otext.endswith(('\n', '\r')) != ntext.endswith(('\n', '\r')):
                 rec.violate('c07:final_newline_changed', '%s: final newline presence changed' % r, **w)
+            bad_end = unchanged_lines_with_changed_endings(otext, ntext)
+            if bad_end:
+                rec.violate('c07:line_ending_of_untouched_line_changed', '%s: lines that the refactoring '
+                            'did not rewrite changed their line ending: %s' % (r, bad_end[:3]), **w)
             co, cn = comments_of(otext), comments_of(ntext)
             if co is not None and cn is not None and co != cn:
                 rec.violate('c07:comments_changed', '%s: comments differ: %s'
